@@ -35,10 +35,13 @@ Definition concat_step (names vals : list text) : option (list text) :=
   end.
 
 (* matchRegex: None = (nil, false) *)
+(* utf8.ValidRune: a surrogate has no string form (string(rune) writes U+FFFD, which the regex does not match), so a
+   regex that mentions one is left alone (fix: the surrogate guard in matchRegex) *)
+Definition valid_rune (r : Z) : bool := ((0 <=? r) && (r <? 55296)) || ((57343 <? r) && (r <=? 1114111)).
 Fixpoint match_regex (re : resyn) : option (list text) :=
   if r_fold re then None else
   match re with
-  | RLit _ rs => Some [rs]
+  | RLit _ rs => if forallb valid_rune rs then Some [rs] else None
   | RCapture _ r => match_regex r
   | RConcat _ subs =>
       match subs with
@@ -58,7 +61,8 @@ Fixpoint match_regex (re : resyn) : option (list text) :=
              end) (match_regex s0) rest
       end
   | RClass _ ranges =>
-      if Z.of_nat max_literals <? class_size ranges then None else Some (class_strings ranges)
+      if Z.of_nat max_literals <? class_size ranges then None
+      else if forallb (forallb valid_rune) (class_strings ranges) then Some (class_strings ranges) else None
   | RAlt _ subs =>
       match (fix go (l : list resyn) : option (list text) :=
                match l with
